@@ -23,13 +23,13 @@ def P(bxs):
 
 
 def cases(ctx):
-    for i in range(ctx.pick(600, 20000)):
+    for i in range(ctx.pick(600, 300000)):
         yield "fullfact", {"seed": ctx.subseed("f", i)}
     for k in range(1, 24):
-        for rep in range(ctx.pick(4, 60)):
+        for rep in range(ctx.pick(4, 900)):
             yield "pb", {"k": k, "seed": ctx.subseed("pb", k, rep)}
     for n in range(3, ctx.pick(8, 10) + 1):
-        for rep in range(ctx.pick(4, 40)):
+        for rep in range(ctx.pick(4, 600)):
             yield "bb", {"n": n, "seed": ctx.subseed("bb", n, rep)}
     # GSD: all level lists with 2..6 levels, 2..(4|5) factors, product<=5000, reductions 2..5
     maxf = ctx.pick(3, 5)
@@ -39,7 +39,7 @@ def cases(ctx):
                 continue
             for red in range(2, 6):
                 yield "gsd", {"levels": list(levels), "reduction": red}
-    for i in range(ctx.pick(160, 4000)):
+    for i in range(ctx.pick(160, 60000)):
         yield "gsd_generator", {"seed": ctx.subseed("gg", i)}
 
 
